@@ -1270,6 +1270,27 @@ class Lo(Expr):
         return relocate_lo(value)
 
 
+# wrap a value to a signed 32-bit integer (li accepts 0xffffffff as well as -1)
+class Signed32(Expr):
+
+    def __init__(self, expr):
+        self.expr = expr
+
+    def __repr__(self):
+        s = '{}({!r})'
+        s = s.format(type(self).__name__, self.expr)
+        return s
+
+    def __str__(self):
+        s = '{}'
+        s = s.format(self.expr)
+        return s
+
+    def eval(self, position, env, line):
+        value = self.expr.eval(position, env, line)
+        return c_int32(value).value
+
+
 # base class for assembly "things"
 class Item(abc.ABC):
 
@@ -3002,7 +3023,10 @@ def transform_pseudo_instructions(items, constants, labels):
             value = imm.eval(position, env, item.line)
             value = c_int32(value).value  # signed imm
             if value >= (-2**11) and value <= (2**11 - 1):
-                inst = ITypeInstruction(item.line, 'addi', rd=rd, rs1='x0', imm=Lo(imm))
+                # no %lo here: if the value moves out of range after this
+                # decision (labels still shrink) that has to be an error,
+                # not a silently truncated constant
+                inst = ITypeInstruction(item.line, 'addi', rd=rd, rs1='x0', imm=Signed32(imm))
                 # shrink all subsequent labels by 4
                 new_labels = {k: v - 4 for k, v in labels.items() if v > position}
                 labels.update(new_labels)
